@@ -258,10 +258,11 @@ Fixpoint value_kind_ok (t vr : N) (v : value) : bool :=
   | VPix _ _ => (vr =? VR_OB) && (t =? T_PIXEL_DATA)
   end.
 Definition kind_ok (o : obj) : bool := forallb (fun e : elem => value_kind_ok (e_tag e) (e_vr e) (e_val e)) o.
-(* no non-empty primitive value under the VR SQ (known class PrimitiveUnderSqVr) *)
+(* no primitive value under the VR SQ (known class PrimitiveUnderSqVr; even an empty one is not
+   written when the object's character set changed) *)
 Fixpoint value_sq_prim_free (vr : N) (v : value) : bool :=
   match v with
-  | VPrim p => negb (vr =? VR_SQ) || prim_is_empty p
+  | VPrim p => negb (vr =? VR_SQ)
   | VSeq items => forallb (fun it => forallb (fun e : elem => value_sq_prim_free (snd (fst e)) (snd e)) it) items
   | VPix _ _ => true
   end.
